@@ -169,7 +169,9 @@ def _run(job):
 
 def full_run(tier, seed):
     """Run (or load from cache) the machine correspondence for this tree/tier/seed."""
-    key = V.sha(V.tree_hash(), V.verif_hash('harness', 'gen', 'tools/oracles.py', 'tools/mach_engine.py'),
+    import glob as _glob
+    oracle_files = [os.path.relpath(f, V.VERIF) for f in sorted(_glob.glob(os.path.join(V.VERIF, 'tools', 'oracle_c*.py')))]
+    key = V.sha(V.tree_hash(), V.verif_hash('harness', 'gen', 'tools/oracles.py', 'tools/mach_engine.py', *oracle_files),
                 V.verif_hash('lean/Hfsm/Model', 'lean/Hfsm/Drive', 'lean/Driver'), tier, str(seed))[:24]
     os.makedirs(V.CACHE, exist_ok=True)
     path = os.path.join(V.CACHE, 'mach_%s.json' % key)
@@ -276,6 +278,8 @@ def search(pid, full, seed):
 def finding_matches(known, rej):
     sig = known.get('signature', {})
     if 'tag' in sig and sig['tag'] != rej.get('tag'):
+        return False
+    if 'regex_tag' in sig and not re.search(sig['regex_tag'], rej.get('tag', '')):
         return False
     if 'contains' in sig and sig['contains'] not in rej.get('what', ''):
         return False
